@@ -138,13 +138,22 @@ static void INThandler(int sig)
     if (g_artefact) {
         assert(UTIL_isRegularFile(g_artefact));
         remove(g_artefact);
+        g_artefact = NULL;
     }
     DISPLAY("\n");
     exit(2);
 }
+/* A run that ends through exit() while a destination file is being written
+ * (EXM_THROW() : write error, ...) must not leave the incomplete file behind either. */
+static void FIO_removeArtefactAtExit(void)
+{
+    if (g_artefact) remove(g_artefact);
+}
 static void addHandler(char const* dstFileName)
 {
     if (UTIL_isRegularFile(dstFileName)) {
+        static int atExitRegistered = 0;
+        if (!atExitRegistered) { atExitRegistered = 1; atexit(FIO_removeArtefactAtExit); }
         g_artefact = dstFileName;
         signal(SIGINT, INThandler);
     } else {
@@ -1866,8 +1875,6 @@ static int FIO_compressFilename_dstFile(FIO_ctx_t* const fCtx,
     result = FIO_compressFilename_internal(fCtx, prefs, ress, dstFileName, srcFileName, compressionLevel);
 
     if (closeDstFile) {
-        clearHandler();
-
         if (transferStat) {
             UTIL_setFDStat(dstFd, dstFileName, srcFileStat);
         }
@@ -1877,6 +1884,7 @@ static int FIO_compressFilename_dstFile(FIO_ctx_t* const fCtx,
             DISPLAYLEVEL(1, "zstd: %s: %s \n", dstFileName, strerror(errno));
             result=1;
         }
+        clearHandler();   /* only now : closing still writes */
 
         if (transferStat) {
             UTIL_utime(dstFileName, srcFileStat);
@@ -2241,6 +2249,7 @@ int FIO_compressMultipleFilenames(FIO_ctx_t* const fCtx,
             error = 1;
         } else {
             AIO_WritePool_setFile(ress.writeCtx, dstFile);
+            addHandler(outFileName);
             for (; fCtx->currFileIdx < fCtx->nbFilesTotal; ++fCtx->currFileIdx) {
                 status = FIO_compressFilename_srcFile(fCtx, prefs, ress, outFileName, inFileNamesTable[fCtx->currFileIdx], compressionLevel);
                 if (!status) fCtx->nbFilesProcessed++;
@@ -2249,6 +2258,7 @@ int FIO_compressMultipleFilenames(FIO_ctx_t* const fCtx,
             if (AIO_WritePool_closeFile(ress.writeCtx))
                 EXM_THROW(29, "Write error (%s) : cannot properly close %s",
                             strerror(errno), outFileName);
+            clearHandler();
         }
     } else {
         if (outMirroredRootDirName)
@@ -2850,8 +2860,6 @@ static int FIO_decompressDstFile(FIO_ctx_t* const fCtx,
     result = FIO_decompressFrames(fCtx, ress, prefs, dstFileName, srcFileName);
 
     if (releaseDstFile) {
-        clearHandler();
-
         if (transferStat) {
             UTIL_setFDStat(dstFd, dstFileName, srcFileStat);
         }
@@ -2860,6 +2868,7 @@ static int FIO_decompressDstFile(FIO_ctx_t* const fCtx,
             DISPLAYLEVEL(1, "zstd: %s: %s \n", dstFileName, strerror(errno));
             result = 1;
         }
+        clearHandler();   /* only now : closing still writes */
 
         if (transferStat) {
             UTIL_utime(dstFileName, srcFileStat);
@@ -3096,6 +3105,7 @@ FIO_decompressMultipleFilenames(FIO_ctx_t* const fCtx,
             FILE* dstFile = FIO_openDstFile(fCtx, prefs, NULL, outFileName, DEFAULT_FILE_PERMISSIONS);
             if (dstFile == 0) EXM_THROW(19, "cannot open %s", outFileName);
             AIO_WritePool_setFile(ress.writeCtx, dstFile);
+            addHandler(outFileName);
         }
         for (; fCtx->currFileIdx < fCtx->nbFilesTotal; fCtx->currFileIdx++) {
             status = FIO_decompressSrcFile(fCtx, prefs, ress, outFileName, srcNamesTable[fCtx->currFileIdx]);
@@ -3105,6 +3115,7 @@ FIO_decompressMultipleFilenames(FIO_ctx_t* const fCtx,
         if ((!prefs->testMode) && (AIO_WritePool_closeFile(ress.writeCtx)))
             EXM_THROW(72, "Write error : %s : cannot properly close output file",
                         strerror(errno));
+        clearHandler();
     } else {
         if (outMirroredRootDirName)
             UTIL_mirrorSourceFilesDirectories(srcNamesTable, (unsigned)fCtx->nbFilesTotal, outMirroredRootDirName);
